@@ -340,3 +340,34 @@ Definition pddl_cfg (kws : list string) : cfg :=
 Definition anml_cfg : cfg :=
   mk_cfg anml_keywords anml_start_class anml_keep_class anml_repl anml_initial_letter anml_default_letter false.
 Definition anml_vcfg : vcfg := mk_vcfg anml_valid_first_class anml_valid_rest_class anml_valid_full.
+
+(* PDDLWriter.__init__ : the keyword set of a writer whose problem has the features [has]
+   ("processes", "events", "trajectory_constraints", "durative_actions", "contingent"); the rules come from the source *)
+Definition rule_applies (has : string -> bool) (r : option (list string) * list string) : bool :=
+  match fst r with None => true | Some fs => existsb has fs end.
+Definition kws_of_rules (base : list string) (rules : list (option (list string) * list string)) (has : string -> bool)
+  : list string :=
+  (base ++ List.concat (map (fun r => if rule_applies has r then snd r else []) rules))%list.
+Definition pddl_writer_kws (has : string -> bool) : list string := kws_of_rules pddl_base_keywords pddl_keyword_rules has.
+
+(* SPECIFICATION (pinned by hand, independent of the source): the words reserved by PDDL for a problem with the
+   features [has].  Props/C38.v proves that the writer's keyword set always contains them. *)
+Definition pddl_reserved_spec (has : string -> bool) : list string :=
+  (["action"; "adl"; "and"; "assign"; "conditional-effects"; "constants"; "contingent";
+     "continuous-effects"; "decrease"; "define"; "derived"; "derived-predicates";
+     "disjunctive-preconditions"; "domain"; "durative-actions"; "effect"; "either"; "equality";
+     "existential-preconditions"; "exists"; "fluents"; "forall"; "goal"; "imply"; "increase";
+     "init"; "maximize"; "metric"; "minimize"; "negative-preconditions"; "not"; "number";
+     "objects"; "or"; "parameters"; "precondition"; "predicates"; "problem";
+     "quantified-preconditions"; "requirements"; "scale-down"; "scale-up"; "strips"; "time";
+     "timed-initial-effects"; "timed-initial-literals"; "total-cost"; "total-time"; "types";
+     "typing"; "universal-preconditions"; "when"]
+   ++ (if has "processes" || has "events" then ["event"; "process"] else [])
+   ++ (if has "durative_actions" then ["all"; "at"; "condition"; "duration"; "durative-action"; "end"; "over"; "start"] else [])
+   ++ (if has "trajectory_constraints" then
+         ["always"; "always-within"; "at-most-once"; "constraints"; "hold-after"; "hold-during";
+          "is-violated"; "preference"; "preferences"; "sometime"; "sometime-after"; "sometime-before";
+          "within"] else [])
+   ++ (if has "contingent" then ["observe"; "oneof"; "unknown"] else []))%list.
+
+Definition subset_b (a b : list string) : bool := forallb (fun k => mem_str k b) a.
